@@ -400,6 +400,12 @@ func cmdCheck(args []string) int {
 		cov["purity_scan_files"] = purityFiles
 	}
 	// callee contracts relied upon at call sites but not verified by this check
+	verifiedSomewhere := map[string]bool{}
+	for _, other := range pmap {
+		for _, fk := range other.Functions {
+			verifiedSomewhere[fk] = true
+		}
+	}
 	var assumedC []string
 	for k := range usedContracts {
 		verified := false
@@ -409,7 +415,10 @@ func cmdCheck(args []string) int {
 			}
 		}
 		if !verified {
-			note := " (verified by another property's check or listed as trusted)"
+			note := " (verified by another property's check)"
+			if !verifiedSomewhere[k] {
+				note = " (ASSUMED: its body is not verified by any check)"
+			}
 			if fi := byKey[k]; fi != nil && fi.Spec != nil && fi.Spec.Trusted {
 				note = " (external function: contract assumed)"
 			}
